@@ -95,7 +95,7 @@ CntOf(ws, c) ==
 
 (* values built by a deserialization attempt that returns an error are not owned by any world;
    whether they are released is outside the properties (reported as INFO, never as a failure) *)
-FailedDeser == E.op = "deser_mut" /\ ~E.res.ok
+FailedDeser == E.op \in {"deser_mut", "deser_struct"} /\ ~E.res.ok
 LeakProp == IF FailedDeser THEN "INFO" ELSE "C04"
 LedgerChecks ==
   /\ Chk("C04", "drop-of-value-not-alive", LedT({"drop"}) \subseteq (tok \cup LedT(Creates)))
@@ -122,7 +122,7 @@ HAllocs == {<<HeapEvs[k].id, HeapEvs[k].s, HeapEvs[k].al>> : k \in {k \in DOMAIN
            \cup {<<HeapEvs[k].nid, HeapEvs[k].ns, HeapEvs[k].al>> :
                     k \in {k \in DOMAIN HeapEvs : HeapEvs[k].k = "realloc" /\ HeapEvs[k].nid > 0}}
 HFreed == {HeapEvs[k].id : k \in {k \in DOMAIN HeapEvs : HeapEvs[k].k \in {"dealloc", "realloc"} /\ HeapEvs[k].id > 0}}
-HeapNext == IF E.op = "deser_mut" /\ ~E.res.ok
+HeapNext == IF E.op \in {"deser_mut", "deser_struct"} /\ ~E.res.ok
             THEN {b \in heap : b[1] \notin HFreed}     \* blocks of a failed attempt belong to no world
             ELSE {b \in heap \cup HAllocs : b[1] \notin HFreed}
 HeapChecks ==
@@ -540,16 +540,34 @@ StrictNext ==
     [] OTHER -> s
 DriftTarget == IF E.op \in {"clone", "serde"} THEN E.dst ELSE E.w
 DriftChecks ==
-  IF E.op \in {"reset", "drop", "panicked", "deser_mut"} THEN TRUE
+  IF E.op \in {"reset", "drop", "panicked", "deser_mut", "deser_struct"} THEN TRUE
   ELSE IF E.op = "clone" THEN Chk("DRIFT", "strict-model-disagrees", PostWs[E.dst].live => ShapeEq(PostStore(E.dst), WS!CloneOf(PreStore(E.w))))
   ELSE IF E.op = "serde" THEN Chk("DRIFT", "strict-model-disagrees", (E.res.ok /\ PostWs[E.dst].live) => ShapeEq(PostStore(E.dst), WS!SerDeOf(PreStore(E.w))))
   ELSE Chk("DRIFT", "strict-model-disagrees", PostWs[E.w].live => ShapeEq(PostStore(E.w), StrictNext))
+
+(* C11 with a specification-side oracle: world w was serialized (JSON), the structured mutations
+   E.muts (vocabulary of Serde.tla) applied, and deserialization attempted into slot dst.  The
+   verdict and, if accepted, the resulting store are predicted by Serde.tla from the previous dump. *)
+SD == INSTANCE Serde WITH NComp <- 9
+OpDeserStruct ==
+  LET d == PreWs[E.w].dump
+      order == [k \in DOMAIN d.tables |-> d.tables[k].bits]
+      x == SD!ApplyMuts(SD!Encode(PreStore(E.w), order), E.muts)
+      acc == SD!Accepts(x) IN
+  /\ Chk("C11", "invalid-input-accepted", E.res.ok => acc)
+  /\ Chk("DRIFT", "acceptable-input-rejected(Serde.tla)", acc => E.res.ok)
+  /\ Chk("C11", "ok-but-no-world", E.res.ok => PostWs[E.dst].live)
+  /\ Chk("C11", "accepted-world-differs-from-the-decoding-of-the-input",
+         (E.res.ok /\ acc /\ PostWs[E.dst].live) => ShapeEq(PostStore(E.dst), SD!Decode(x)))
+  /\ Chk("C11", "error-but-world-returned", ~E.res.ok => ~PostWs[E.dst].live)
+  /\ issued' = [issued EXCEPT ![E.dst] = IF E.res.ok /\ PostWs[E.dst].live THEN DOMAIN Ents(PostWs[E.dst]) ELSE {}]
+  /\ Chk("C10", "source-changed-by-serialization", Ents(PostWs[E.w]) = Ents(PreWs[E.w]))
 
 -----------------------------------------------------------------------------
 (* Lock-step twins (C06 / C10): an op flagged m=2 repeats the previous op on  *)
 (* the twin world and must have the same results and leave the same content.  *)
 Touched ==
-  CASE E.op \in {"clone", "serde", "deser_mut"} -> {E.dst}
+  CASE E.op \in {"clone", "serde", "deser_mut", "deser_struct"} -> {E.dst}
     [] E.op = "reset" -> Worlds
     [] E.op = "panicked" -> Worlds
     [] OTHER -> {E.w}
@@ -632,6 +650,7 @@ FullStep ==
        [] E.op = "clone_from" -> OpCloneFrom
        [] E.op = "serde" -> OpSerde
        [] E.op = "deser_mut" -> OpDeserMut
+       [] E.op = "deser_struct" -> OpDeserStruct
        [] E.op = "getmut" -> OpGetMut
        [] E.op = "viewres" -> OpViewRes
        [] E.op = "query" -> OpQuery
